@@ -144,7 +144,7 @@ func runSynthCase(resolver *resolve.Resolver, c *synthIn) (co caseOut) {
 	p := &plan.SynchronousResponsePlan{Response: response}
 	postprocess.NewProcessor().Process(p)
 
-	a := &authorizer{deny: map[string]bool{}}
+	a := &authorizer{deny: map[string]bool{}, fail: map[string]bool{}}
 	for _, d := range c.Deny {
 		a.deny[fmt.Sprintf("%s.f%d", rootType, d)] = true
 	}
@@ -153,6 +153,9 @@ func runSynthCase(resolver *resolve.Resolver, c *synthIn) (co caseOut) {
 	case "post":
 		rctx.SetAuthorizer(a)
 	case "batch":
+		rctx.SetPreFetchFieldAuthorizer(batchAuthorizer{a})
+	case "both":
+		rctx.SetAuthorizer(a)
 		rctx.SetPreFetchFieldAuthorizer(batchAuthorizer{a})
 	}
 	var buf bytes.Buffer
